@@ -65,6 +65,7 @@ def download(n, blks, crc, how, lose=(), final_loss=False):
     """blks: block sizes the server asks for in successive sub-blocks; lose: indices of segment frames
     dropped (counted over everything the client sends between initiate and end)"""
     E = _exc()
+    # crc: 1 both sides, 0 the server does not support it, 2 the client does not ask for it (request_crc_support=False)
     srv = BlockDownloadServer(blks, crc=bool(crc))
     rig = LossyRig(srv, lose)
     idx = sx.fresh_int("idx", 0, 0xFFFF)
@@ -79,7 +80,7 @@ def download(n, blks, crc, how, lose=(), final_loss=False):
         else:
             buffering = 1024 if how == "buffered" else 0
         fp = rig.client.open(idx, sub, "wb", buffering=buffering, size=n,
-                             block_transfer=True, request_crc_support=True)
+                             block_transfer=True, request_crc_support=(crc != 2))
         try:
             _write_all(fp, payload, how)
         finally:
@@ -188,9 +189,11 @@ def jobs(tier):
         for blks in blkss:
             if n > 100 and blks[0] < 7 and blks != [2, 3, 1, 5]:
                 continue
-            for crc in (1, 0):
+            for crc in (1, 0, 2):
                 for how in ("buffered", "raw"):
-                    if how == "raw" and (crc == 0 or n > 100):
+                    if how == "raw" and (crc != 1 or n > 100):
+                        continue
+                    if crc == 2 and blks not in ([127], [2, 3, 1, 5]):
                         continue
                     out.append(dict(func="download", params=dict(n=n, blks=blks, crc=crc, how=how), weight=n))
     # single loss in a non-final sub-block: every position
